@@ -99,6 +99,14 @@ def build(kind, cfg):
     return hg.IrregularlyBin(list(cfg), q)
 
 
+def _content_of(kind, h):
+    if kind == "Bin":
+        return {i: v.entries for i, v in enumerate(h.values) if v.entries}
+    if kind == "SparselyBin":
+        return {k: v.entries for k, v in h.bins.items() if v.entries}
+    return {i: v.entries for i, (_, v) in enumerate(h.bins) if v.entries}
+
+
 def snap(x, edges):
     """A query bound within numpy.isclose of an edge counts as that edge."""
     for e in edges:
@@ -187,6 +195,12 @@ def check_1d(kind, cfg, fillset, lo, hi):
         entries = np.asarray(h.bin_entries(**kw), dtype=float)
     except Exception as e:
         return [core.v_exc(PROP, "views1d", "accessor raised (%s, %s)" % ("full" if full else "sub-range", dy), e, args)]
+    if content or True:
+        after = {k: v for k, v in _content_of(kind, h).items()}
+        if after != {k: v for k, v in content.items()}:
+            out.append(FW.violation(PROP, "views1d", kind + " range views", "source-histogram-changed", args,
+                                    {"before": content, "after": after}))
+            return out
     det = {"num_bins": int(n), "edges": [A.show(float(v)) for v in edges[:12]],
            "centers": [A.show(float(v)) for v in centers[:12]], "entries": [float(v) for v in entries[:12]],
            "expected_bins": [[k, A.show(a), A.show(b)] for k, a, b in exp[:12]]}
@@ -394,6 +408,7 @@ def check_2d(kind, cfgx, cfgy, cells):
                 inrange += w
         if kind == "SparselyBin" and not h.bins:
             return out
+        src0 = h.toJson()
         xr, yr, grid = h.xy_ranges_grid()
         grid = np.asarray(grid, dtype=float)
         if kind == "IrregularlyBin":
@@ -438,6 +453,22 @@ def check_2d(kind, cfgx, cfgy, cells):
             if got != want:
                 out.append(FW.violation(PROP, "views2d", "%s.%s" % (kind, nm), "differs-from-1d-histogram-of-same-data",
                                         args, {"got": got, "expected": want}))
+        # the views are read-only: the source is what it was, and asking again gives the same answer
+        from ..canon import diff as _diff
+
+        d = _diff(h.toJson(), src0, tol_keys=())
+        if d:
+            out.append(FW.violation(PROP, "views2d", kind + " grid/projection views", "source-histogram-changed", args,
+                                    {"path": d[0], "now": d[2], "before": d[3]}))
+        else:
+            for nm, first in (("project_on_x", px), ("project_on_y", py)):
+                again = getattr(h, nm)()
+                if _diff(again.toJson(), first.toJson(), tol_keys=()):
+                    out.append(FW.violation(PROP, "views2d", "%s.%s" % (kind, nm), "second-call-differs", args, {}))
+            d = _diff(h.toJson(), src0, tol_keys=())
+            if d:
+                out.append(FW.violation(PROP, "views2d", kind + " grid/projection views", "source-histogram-changed", args,
+                                        {"path": d[0], "now": d[2], "before": d[3]}))
     except Exception as e:
         out.append(core.v_exc(PROP, "views2d", "2-D view raised", e, args))
     return out
